@@ -347,6 +347,60 @@ func genStorm(t *rapid.T) Case {
 	return c
 }
 
+// twinQueries: the same selection under two root aliases, so that the two subtrees have equal paths
+// below the root key; positions of one subtree must never be taken for the other's.
+var twinQueries = []string{
+	`{ ta: a { rsnn bnn { id } } tb: a { rsnn bnn { id } } }`,
+	`{ ta: as { rsnn id } tb: as { rsnn id } }`,
+	`{ ta: ann { rsnn nn } tb: a { rsnn nn } }`,
+	`{ ta: asnn { bnn { id ann { id } } } tb: asnn { bnn { id ann { id } } } }`,
+	`{ ta: a { x: bnn { id } } tb: a { x: bnn { id } } s }`,
+}
+
+func genTwin(t *rapid.T) Case {
+	var c Case
+	c.Project = rapid.SampledFrom([]string{"core", "roots"}).Draw(t, "project")
+	srvs, err := kit.Servers(c.Project)
+	if err != nil {
+		c.Project = "core"
+		if srvs, err = kit.Servers(c.Project); err != nil {
+			t.Fatalf("harness: %v", err)
+		}
+	}
+	s := srvs[0]
+	c.Query = rapid.SampledFrom(twinQueries).Draw(t, "twinquery")
+	c.PlanSeed = rapid.Uint64Range(1, 1<<32).Draw(t, "planseed")
+	c.SchedSeed = rapid.Uint64Range(1, 1<<32).Draw(t, "schedseed")
+	pr, f := kit.Prepare(s, c.Case)
+	if f != nil {
+		t.Fatalf("harness: twin query invalid: %s", f.Msg)
+	}
+	c.Overrides = map[string]plan.Outcome{"ta": {Kind: plan.Value}, "tb": {Kind: plan.Value}}
+	ref := kit.Reference(s, pr, c.Case.Plan())
+	// the same non-null resolver position fails under both aliases: with nil (the runtime adds the
+	// null error itself, after asking whether the field already has one) or with an error
+	var under []string
+	for _, k := range ref.Resolvers {
+		if strings.HasPrefix(k, "ta") && k != "ta" && ref.Pos[k].NonNull && !ref.Pos[k].List {
+			under = append(under, k)
+		}
+	}
+	if len(under) == 0 {
+		t.Skip("no non-null resolver position below the twins under this plan")
+	}
+	k := under[rapid.IntRange(0, len(under)-1).Draw(t, "twinpos")]
+	kinds := []plan.Outcome{{Kind: plan.Nil}, {Kind: plan.Error, Msg: "twin"}}
+	c.Overrides[k] = kinds[rapid.IntRange(0, 1).Draw(t, "kinda")]
+	c.Overrides["tb"+k[2:]] = kinds[rapid.IntRange(0, 1).Draw(t, "kindb")]
+	vfrun.Label("twin-paths")
+	return c
+}
+
+// TestTwinPaths: equal paths below two different root keys.
+func TestTwinPaths(t *testing.T) {
+	vfrun.Run(t, vfrun.Prop[Case]{Property: "C06", Name: "TestTwinPaths", Gen: genTwin, Check: check}, vfrun.N(160, 4000))
+}
+
 // TestFailureStorm: many sibling failures recorded at the same instant (tick schedule, repeated): the
 // multiset of errors has to be the reference's every time.
 func TestFailureStorm(t *testing.T) {
